@@ -1,4 +1,5 @@
 import AlatorVerif.Lemmas.HttpThm
+import AlatorVerif.Lemmas.HttpClient
 /-!
 # C20 — the JSON server is a faithful transport for the in-process exchange (Uist and Jura)
 
@@ -40,6 +41,42 @@ theorem body_is_encoding_of_result (v : Variant) (syms : String → List String)
    (handle_readonly X enc v syms a id).2.2.2.2.2.2.1,
    (handle_readonly X enc v syms a id).2.2.2.2.2.2.2.1,
    (handle_readonly X enc v syms a id).2.2.2.2.2.2.2.2⟩
+
+/-- **after JSON decoding, the same results** — the routes common to both services. `typed dec r` is a typed
+    client call (`Err` on any status but 200 or on an undecodable body); the decoders model the `Deserialize`
+    derives of the response structs. `init` yields the id the in-process call hands out, `info` the version
+    and dataset name, `now` the clock and `has_next`, `insert_order` / `delete_order` succeed exactly when the
+    in-process call finds the backtest — and every one of them is an error exactly where the in-process
+    call returns `None` -/
+theorem decoded_response_is_in_process_result (syms : String → List String) (a : App E Q) (id : Nat) (name : String)
+    (o : O) (d : D) (hp : (init X .repaired a name).1 ≠ .panic) :
+    typed decInit (handle X enc .repaired syms a (.init name : Req O A D)).1 = resId (init X .repaired a name).1 ∧
+    typed decInfo (handle X enc .repaired syms a (.info id : Req O A D)).1 = (info a id).map (fun d => ("v1", d)) ∧
+    (enc.hasNow = true → typed decNow (handle X enc .repaired syms a (.now id : Req O A D)).1 = now a id) ∧
+    ((typed (fun _ => some ()) (handle X enc .repaired syms a (.insert id o : Req O A D)).1).isSome = (insert X a id o).1) ∧
+    ((typed (fun _ => some ()) (handle X enc .repaired syms a (.delete id d : Req O A D)).1).isSome = (delete X a id d).1) :=
+  ⟨client_init X enc syms a name hp, client_info X enc syms a id, client_now X enc syms a id,
+   (client_unit X enc syms a id o d).1, (client_unit X enc syms a id o d).2⟩
+
+/-- **Uist tick and fetch_quotes after decoding**: `has_next`, the executed trades and the inserted orders (with
+    their exchange ids), every list in order — or an error for an unknown backtest; the quotes map decodes to
+    exactly the stored quote of every dataset symbol quoted on the current date -/
+theorem uist_decoded_tick_and_quotes {β : Type} [LE β] [DecidableLE β] [Mul β]
+    (syms : String → List String) (a : App (PU.Uist String β) (UQ String β)) (id : Nat)
+    (adm : List (PU.Order String β)) (q : UQ String β) (ss : List String) :
+    typed decTickU (handle uistOps uistEnc .repaired syms a (.tick id adm : Req _ _ Nat)).1
+      = (tick uistOps .repaired a id adm).1.map (fun x => (x.1, x.2.1, x.2.2)) ∧
+    decQuotesU ((uistEnc (α := β)).quotes q ss) = some (ss.filterMap (fun s => (q s).map (fun x => (s, s, x)))) :=
+  ⟨client_tick_uist syms a id adm, client_fetch_uist ss q⟩
+
+/-- **Jura tick after decoding**: `has_next`, the fills (coin, order id, price, side, size, time), the inserted
+    orders and the ids of the triggered children — or an error for an unknown backtest -/
+theorem jura_decoded_tick {β : Type} [LE β] [DecidableLE β] [Add β] [Sub β] [Mul β] [OfNat β 1] [OfScientific β]
+    (syms : String → List String) (a : App (PJ.Jura β) (JQ β)) (id : Nat) (adm : List (PJ.Order β)) :
+    typed decTickJ (handle juraOps (juraEnc true) .repaired syms a (.tick id adm : Req _ _ (Nat × Nat))).1
+      = (tick juraOps .repaired a id adm).1.map (fun x =>
+          (x.1, x.2.1.map (fun f => (toString f.coin, f.oid, f.px, f.buy, f.sz, f.time)), x.2.2.1, x.2.2.2.1)) :=
+  client_tick_jura syms a id adm
 
 /-- with the repaired wire format every component of a Jura tick result is on the wire (the pinned
     `TickResponse` had no field for the ids of triggered children, F9) -/
